@@ -912,7 +912,7 @@ func (run *rRun) checkComplete() error {
 		return nil
 	}
 	// caches may hold dirty data only until Close; compare after a sync
-	return run.disk.CheckComplete(filepath.Join(run.env.Scratch, "complete-check"), run.incInit[len(run.incInit)-1])
+	return run.disk.CheckComplete(filepath.Join(run.env.Scratch, "complete-check"), run.incInit[len(run.incInit)-1], nil)
 }
 
 // crashEnum: for every incarnation, crash at journal boundaries (all of them when
